@@ -233,11 +233,19 @@ where
             match r {
                 Ok(()) => Ok(()),
                 Err(Fail::Harness(m)) => {
+                    stats.borrow_mut().inconclusive += 1;
+                    // a single case that outlives its watchdog is abandoned (counted as
+                    // inconclusive in the evidence); only a pattern of them, or any other
+                    // harness problem, makes the whole run inconclusive
+                    let slow = m.contains("timed out");
+                    if slow {
+                        stats.borrow_mut().count("cases_abandoned_by_watchdog", 1);
+                    }
+                    let abandoned = *stats.borrow().counters.get("cases_abandoned_by_watchdog").unwrap_or(&0);
                     let mut h = harness.borrow_mut();
-                    if h.len() < 20 {
+                    if (!slow || abandoned > 3) && h.len() < 20 {
                         h.push(format!("[{}] {}", name, m));
                     }
-                    stats.borrow_mut().inconclusive += 1;
                     Ok(())
                 }
                 Err(Fail::Violation(v)) => {
@@ -330,7 +338,12 @@ pub fn run_fixed<C: Serialize>(ctx: &Ctx, lr: &mut LaneResult, name: &str, cases
             Ok(()) => {}
             Err(Fail::Harness(m)) => {
                 lr.stats.inconclusive += 1;
-                if lr.harness_errors.len() < 20 {
+                let slow = m.contains("timed out");
+                if slow {
+                    lr.stats.count("cases_abandoned_by_watchdog", 1);
+                }
+                let abandoned = *lr.stats.counters.get("cases_abandoned_by_watchdog").unwrap_or(&0);
+                if (!slow || abandoned > 3) && lr.harness_errors.len() < 20 {
                     lr.harness_errors.push(format!("[{}] {}", name, m));
                 }
             }
